@@ -19,6 +19,7 @@ import (
 	"strconv"
 	"strings"
 	"sync"
+	"time"
 
 	"github.com/zeromicro/go-zero/internal/verifh"
 )
@@ -57,6 +58,18 @@ func rawName(e error) string {
 	return ""
 }
 
+// values of the environment a transaction can meet: the context's two errors and the driver's "bad connection"
+var envSentinels = map[error]string{context.Canceled: "ctx", context.DeadlineExceeded: "deadline", driver.ErrBadConn: "badconn"}
+
+func envName(e error) string {
+	for s, name := range envSentinels {
+		if e == s {
+			return name
+		}
+	}
+	return ""
+}
+
 var markerRe = regexp.MustCompile(`<c14:([a-z0-9.]+)>`)
 
 // Classify renders an error as `is:<chain>/says:<mentioned only>`; extra lets the package harness look
@@ -79,6 +92,11 @@ func ClassifyT(err error, extra func(error) (string, error, bool), texts map[str
 			break
 		}
 		if name := rawName(e); name != "" {
+			is = append(is, name)
+			seen[name] = true
+			break
+		}
+		if name := envName(e); name != "" {
 			is = append(is, name)
 			seen[name] = true
 			break
@@ -116,6 +134,12 @@ func ClassifyT(err error, extra func(error) (string, error, bool), texts map[str
 			says = append(says, name)
 		}
 	}
+	for e, name := range envSentinels {
+		if strings.Contains(msg, e.Error()) && !seen[name] {
+			seen[name] = true
+			says = append(says, name)
+		}
+	}
 	for sub, name := range texts {
 		if strings.Contains(msg, sub) && !seen[name] {
 			seen[name] = true
@@ -140,14 +164,28 @@ type Plan struct {
 	mu                      sync.Mutex
 	BeginOk, CommitOk, RbOk bool
 	OpenOk                  bool
+	BadLeft                 int  // Begin is answered driver.ErrBadConn this many times first
+	CommitPanics, RbPanics  bool // the driver's Commit / Rollback panics
 	log                     []string
 }
 
 func (p *Plan) Reset(beginOk, commitOk, rbOk bool) {
 	p.mu.Lock()
 	p.BeginOk, p.CommitOk, p.RbOk = beginOk, commitOk, rbOk
+	p.BadLeft, p.CommitPanics, p.RbPanics = 0, false, false
 	p.log = nil
 	p.mu.Unlock()
+}
+
+// takeBad consumes one pending ErrBadConn answer.
+func (p *Plan) takeBad() bool {
+	p.mu.Lock()
+	defer p.mu.Unlock()
+	if p.BadLeft > 0 {
+		p.BadLeft--
+		return true
+	}
+	return false
 }
 
 func (p *Plan) add(s string) {
@@ -183,13 +221,42 @@ func (d *Drv) Driver() driver.Driver { return d }
 
 type conn struct{ p *Plan }
 
-func (c *conn) Prepare(q string) (driver.Stmt, error) { return nil, errors.New("c14: Prepare not used") }
+// Prepare (a prepared statement inside the transaction): preparing is not logged, executing it is logged and
+// faulted exactly like a direct statement.
+func (c *conn) Prepare(q string) (driver.Stmt, error) {
+	parseStmt(q)
+	return &stmt{c: c, q: q}, nil
+}
+
+type stmt struct {
+	c *conn
+	q string
+}
+
+func (s *stmt) Close() error  { return nil }
+func (s *stmt) NumInput() int { return -1 }
+func (s *stmt) Exec([]driver.Value) (driver.Result, error) {
+	return s.c.ExecContext(context.Background(), s.q, nil)
+}
+func (s *stmt) Query([]driver.Value) (driver.Rows, error) {
+	return s.c.QueryContext(context.Background(), s.q, nil)
+}
+func (s *stmt) ExecContext(ctx context.Context, a []driver.NamedValue) (driver.Result, error) {
+	return s.c.ExecContext(ctx, s.q, a)
+}
+func (s *stmt) QueryContext(ctx context.Context, a []driver.NamedValue) (driver.Rows, error) {
+	return s.c.QueryContext(ctx, s.q, a)
+}
 
 func (c *conn) Close() error { return nil }
 
 func (c *conn) Begin() (driver.Tx, error) { return c.BeginTx(context.Background(), driver.TxOptions{}) }
 
 func (c *conn) BeginTx(context.Context, driver.TxOptions) (driver.Tx, error) {
+	if c.p.takeBad() {
+		c.p.add("BB")
+		return nil, driver.ErrBadConn
+	}
 	if !c.p.BeginOk {
 		c.p.add("B!")
 		return nil, NewSrcErr("begin", nil)
@@ -234,6 +301,10 @@ func (c *conn) QueryContext(_ context.Context, q string, _ []driver.NamedValue) 
 type tx struct{ p *Plan }
 
 func (t *tx) Commit() error {
+	if t.p.CommitPanics {
+		t.p.add("C!")
+		panic(NewSrcErr("commit", nil))
+	}
 	if !t.p.CommitOk {
 		t.p.add("C!")
 		return NewSrcErr("commit", nil)
@@ -243,6 +314,10 @@ func (t *tx) Commit() error {
 }
 
 func (t *tx) Rollback() error {
+	if t.p.RbPanics {
+		t.p.add("R!")
+		panic(NewSrcErr("rollback", nil))
+	}
 	if !t.p.RbOk {
 		t.p.add("R!")
 		return NewSrcErr("rollback", nil)
@@ -279,28 +354,84 @@ func Registered() *Drv {
 }
 
 // ---------------------------------------------------------------------------------------------
+// a context the harness ends itself, synchronously, with the error it chooses (so that "the deadline passes
+// just before statement k" needs no clock)
+
+type Ctx struct {
+	mu   sync.Mutex
+	done chan struct{}
+	err  error
+}
+
+func NewCtx() *Ctx { return &Ctx{done: make(chan struct{})} }
+
+func (c *Ctx) Deadline() (time.Time, bool) { return time.Time{}, false }
+func (c *Ctx) Done() <-chan struct{}       { return c.done }
+func (c *Ctx) Value(any) any               { return nil }
+
+func (c *Ctx) Err() error {
+	c.mu.Lock()
+	defer c.mu.Unlock()
+	return c.err
+}
+
+// Finish ends the context with err (context.Canceled or context.DeadlineExceeded); later calls do nothing.
+func (c *Ctx) Finish(err error) {
+	c.mu.Lock()
+	defer c.mu.Unlock()
+	if c.err == nil {
+		c.err = err
+		close(c.done)
+	}
+}
+
+// ---------------------------------------------------------------------------------------------
 // generator (separate from execution: only op text leaves it)
 
 // AllClasses are the body-error classes `acceptable` distinguishes ("acctype" needs package sqlx).
 var AllClasses = []string{"plain", "norows", "txdone", "canceled", "acctype", "userok"}
 
-func genStmts(r *verifh.Rng, n int, faultAt int, faultLetter byte) string {
+func genStmts(r *verifh.Rng, n int, faultAt int, faultLetter byte, checked bool) string {
 	if n == 0 {
 		return "-"
 	}
 	b := make([]byte, n)
 	for i := range b {
-		switch x := r.Intn(100); {
-		case x < 55:
+		x := r.Intn(100)
+		if checked { // a body that looks at every error, as real code does
+			switch {
+			case x < 50:
+				b[i] = 'X'
+			case x < 78:
+				b[i] = 'Y'
+			case x < 90:
+				b[i] = 'p'
+			case x < 94:
+				b[i] = 'x'
+			default:
+				b[i] = 'M'
+			}
+			continue
+		}
+		switch {
+		case x < 30:
 			b[i] = 'x'
-		case x < 80:
+		case x < 46:
+			b[i] = 'X'
+		case x < 52:
+			b[i] = 'p'
+		case x < 65:
 			b[i] = 'q'
+		case x < 80:
+			b[i] = 'Y'
 		case x < 86:
 			b[i] = 'i'
 		case x < 92:
 			b[i] = 'h'
-		default:
+		case x < 96:
 			b[i] = 'm'
+		default:
+			b[i] = 'M'
 		}
 	}
 	if faultAt >= 0 && faultAt < n {
@@ -316,8 +447,21 @@ func okfail(b bool) string {
 	return "fail"
 }
 
-// GenOp draws one transaction: a body length, one main fault point (or none), plus independent
-// commit/rollback faults so that every end of the deferred decision meets both answers.
+func endAns(r *verifh.Rng) string {
+	switch x := r.Intn(100); {
+	case x < 62:
+		return "ok"
+	case x < 93:
+		return "fail"
+	default:
+		return "panic"
+	}
+}
+
+// GenOp draws one transaction: a body length, one main fault point (or none), independent commit/rollback
+// answers (ok / error / panic) so that every end of the deferred decision meets each of them, Begin attempts
+// answered ErrBadConn, and — for TransactCtx — a context that is cancelled / whose deadline passes just before
+// some statement of the body or just before the body ends.
 func GenOp(r *verifh.Rng, apis, classes []string, maxLen int, allowReject bool) string {
 	n := 0
 	switch r.Intn(6) {
@@ -330,9 +474,11 @@ func GenOp(r *verifh.Rng, apis, classes []string, maxLen int, allowReject bool) 
 	default:
 		n = r.Range(0, maxLen)
 	}
-	begin, commit, rollback := true, !r.Chance(1, 3), !r.Chance(1, 3)
+	api := apis[r.Intn(len(apis))]
+	begin, commit, rollback := true, endAns(r), endAns(r)
 	end := "ok"
 	faultAt, letter := -1, byte('f')
+	oq := false
 	switch x := r.Intn(100); {
 	case x < 10:
 		begin = false
@@ -341,40 +487,74 @@ func GenOp(r *verifh.Rng, apis, classes []string, maxLen int, allowReject bool) 
 			n = 1
 		}
 		faultAt = r.Intn(n)
-		letter = "fgn"[r.Intn(3)]
+		letter = "fgnNP"[r.Intn(5)]
 	case x < 50: // the body returns its own error after all statements
 		end = "err:" + classes[r.Intn(len(classes))]
 	case x < 68: // the body panics after all statements
 		end = r.PickS("panic", "panic", "panicerr", "panicnil")
 	case x < 72: // outside the quantifier (informational): exits that recover() != nil cannot see
 		end = r.PickS("goexit", "panicnil1")
+		oq = true
 	default: // body succeeds: commit decides
 	}
 	// the statement fault ends the body early; what would follow is still generated (must not run)
 	if faultAt >= 0 && r.Bool() {
 		end = r.PickS("ok", "err:plain", "panic")
 	}
+	if oq { // keep the informational exits apart from driver panics
+		if commit == "panic" {
+			commit = "fail"
+		}
+		if rollback == "panic" {
+			rollback = "fail"
+		}
+	}
 	brk := "allow"
 	if allowReject && r.Chance(1, 12) {
 		brk = "reject"
 	}
-	return fmt.Sprintf("tx api=%s begin=%s stmts=%s end=%s commit=%s rollback=%s brk=%s",
-		apis[r.Intn(len(apis))], okfail(begin), genStmts(r, n, faultAt, letter), end, okfail(commit), okfail(rollback), brk)
+	bad := 0
+	switch x := r.Intn(100); {
+	case x < 10:
+		bad = r.Range(1, 2) // retried, then the definitive answer
+	case x < 14:
+		bad = r.Range(3, 4) // database/sql gives up
+	}
+	cancel := "-"
+	checked := r.Chance(1, 3)
+	if api == "ctx" && r.Chance(3, 10) {
+		k := r.Intn(n + 1)
+		switch r.Intn(4) {
+		case 0:
+			k = 0
+		case 1:
+			k = n
+		}
+		cancel = r.PickS("c", "d") + fmt.Sprint(k)
+		checked = r.Chance(3, 4)
+	}
+	return fmt.Sprintf("tx api=%s begin=%s bad=%d stmts=%s end=%s commit=%s rollback=%s brk=%s cancel=%s",
+		api, okfail(begin), bad, genStmts(r, n, faultAt, letter, checked), end, commit, rollback, brk, cancel)
 }
 
 // Exhaustive enumerates every fault point for bodies of length 0..maxLen (one statement kind per body):
-// begin fails | k-th statement fails | body err/panic after n statements | commit fails | rollback fails.
+// begin fails | k-th statement fails | body err/panic after n statements | commit fails | rollback fails;
+// Begin answered ErrBadConn 1..4 times; Commit / Rollback panicking under every outcome of the body; and, for
+// api=ctx, the context cancelled / its deadline passed just before statement k = 0..n (n: before the body ends)
+// under bodies that check every error, bodies that check none, and every outcome.
 func Exhaustive(api string, maxLen int) []string {
 	var ops []string
-	add := func(begin bool, stmts, end string, c, rb bool) {
-		ops = append(ops, fmt.Sprintf("tx api=%s begin=%s stmts=%s end=%s commit=%s rollback=%s brk=allow",
-			api, okfail(begin), stmts, end, okfail(c), okfail(rb)))
-	}
-	for n := 0; n <= maxLen; n++ {
-		base := strings.Repeat("x", n)
-		if n == 0 {
-			base = "-"
+	addX := func(begin bool, bad int, stmts, end, c, rb, cancel string) {
+		if stmts == "" {
+			stmts = "-"
 		}
+		ops = append(ops, fmt.Sprintf("tx api=%s begin=%s bad=%d stmts=%s end=%s commit=%s rollback=%s brk=allow cancel=%s",
+			api, okfail(begin), bad, stmts, end, c, rb, cancel))
+	}
+	add := func(begin bool, stmts, end string, c, rb bool) { addX(begin, 0, stmts, end, okfail(c), okfail(rb), "-") }
+	rep := func(l string, n int) string { return strings.Repeat(l, n) }
+	for n := 0; n <= maxLen; n++ {
+		base := rep("x", n)
 		add(false, base, "ok", true, true)
 		for _, c := range []bool{true, false} {
 			for _, rb := range []bool{true, false} {
@@ -382,10 +562,52 @@ func Exhaustive(api string, maxLen int) []string {
 					add(true, base, end, c, rb)
 				}
 				for k := 0; k < n; k++ {
-					for _, l := range []string{"f", "g", "n", "i"} {
+					for _, l := range []string{"f", "g", "n", "i", "N", "P"} {
 						add(true, base[:k]+l+base[k+1:], "ok", c, rb)
 					}
 				}
+			}
+		}
+		// a panicking Commit / Rollback of the driver, under every outcome of the body
+		for _, end := range []string{"ok", "err:plain", "panic"} {
+			addX(true, 0, rep("X", n), end, "panic", "ok", "-")
+			addX(true, 0, rep("X", n), end, "ok", "panic", "-")
+			addX(true, 0, rep("X", n), end, "panic", "panic", "-")
+		}
+		if n > 0 {
+			addX(true, 0, rep("X", n-1)+"f", "ok", "panic", "panic", "-")
+		}
+		// Begin answered ErrBadConn: retried inside the one db.Begin(), given up after three attempts
+		if n <= 2 {
+			for bad := 1; bad <= 4; bad++ {
+				addX(true, bad, rep("X", n), "ok", "ok", "ok", "-")
+				addX(true, bad, rep("X", n), "err:plain", "fail", "fail", "-")
+				addX(false, bad, rep("X", n), "ok", "ok", "ok", "-")
+			}
+		}
+		if api != "ctx" {
+			continue
+		}
+		// the context ends under the running body
+		for k := 0; k <= n; k++ {
+			for _, kind := range []string{"c", "d"} {
+				cancel := kind + fmt.Sprint(k)
+				for _, l := range []string{"X", "x", "Y", "p"} {
+					for _, end := range []string{"ok", "err:plain", "panic"} {
+						addX(true, 0, rep(l, n), end, "ok", "ok", cancel)
+						addX(true, 0, rep(l, n), end, "fail", "fail", cancel)
+					}
+				}
+				// a driver fault before the context ends, a nested transaction after it
+				if k > 0 {
+					addX(true, 0, rep("X", k-1)+"f"+rep("X", n-k), "ok", "ok", "ok", cancel)
+					addX(true, 0, rep("X", k-1)+"i"+rep("X", n-k), "ok", "ok", "fail", cancel)
+				}
+				if k < n {
+					addX(true, 0, rep("x", k)+"n"+rep("X", n-k-1), "ok", "ok", "ok", cancel)
+					addX(true, 0, rep("x", k)+"M"+rep("X", n-k-1), "ok", "ok", "ok", cancel)
+				}
+				addX(true, 0, rep("X", n), "err:canceled", "ok", "panic", cancel)
 			}
 		}
 	}
@@ -397,16 +619,23 @@ func Exhaustive(api string, maxLen int) []string {
 
 // Sess is what a body can do with the session it is given (closures over the package's Session type).
 type Sess struct {
-	Exec  func(q string) error
-	Query func(q string) error
-	Nest  func() error
+	Exec    func(q string) error
+	Query   func(q string) error
+	PExec   func(q string) error // Prepare inside the transaction, execute, close
+	Nest    func() error // NewSqlConnFromSession / WithSession … Transact
+	NestCtx func() error // … TransactCtx
+	// End ends the context the body was given (deadline: with DeadlineExceeded, else Canceled);
+	// nil when the entry point has no context.
+	End func(deadline bool)
 }
 
 // Hooks connect the executor to one package's way of calling the real code.
 type Hooks struct {
-	// Call runs the real Transact/TransactCtx (api: plain|ctx|ctxdone) with the body and returns its
-	// error and what the breaker was told ("ok", "fail", "-" not asked, "?" not observable).
-	Call func(api string, brkAllow bool, body func(Sess) error) (error, string)
+	// Call runs the real Transact/TransactCtx (api: plain|ctx|ctxdone|ctxdead) with the body and returns its
+	// error; *mark receives what the breaker was told ("ok", "fail", "-" not asked, "?" not observable) also
+	// when the call leaves by a panic. kind is "" (the context never ends), "c" (it will be cancelled) or
+	// "d" (its deadline will pass) while the body runs.
+	Call func(api, kind string, brkAllow bool, body func(Sess) error, mark *string) error
 	// BodyErr builds the body's own error of a class (nil: default construction).
 	BodyErr func(cls string) error
 	// Extra lets Classify look into package-private wrappers.
@@ -459,15 +688,29 @@ func RunOp(op []string, h Hooks) string {
 		return "bad-op"
 	}
 	m := kv(op[1:])
-	for _, k := range []string{"api", "begin", "stmts", "end", "commit", "rollback", "brk"} {
+	for _, k := range []string{"api", "begin", "bad", "stmts", "end", "commit", "rollback", "brk", "cancel"} {
 		if _, ok := m[k]; !ok {
 			return "bad-op missing " + k
 		}
 	}
 	h.Plan.Reset(m["begin"] == "ok", m["commit"] == "ok", m["rollback"] == "ok")
+	bad, err := strconv.Atoi(m["bad"])
+	if err != nil || bad < 0 {
+		return "bad-op bad=" + m["bad"]
+	}
+	h.Plan.BadLeft, h.Plan.CommitPanics, h.Plan.RbPanics = bad, m["commit"] == "panic", m["rollback"] == "panic"
 	stmts := m["stmts"]
 	if stmts == "-" {
 		stmts = ""
+	}
+	// the context ends just before statement cancelAt (len(stmts): just before the body ends)
+	cancelAt, kind := -1, ""
+	if c := m["cancel"]; c != "-" {
+		k, err := strconv.Atoi(strings.TrimLeft(c, "cd"))
+		if err != nil || len(c) < 2 || (c[0] != 'c' && c[0] != 'd') || k < 0 || k > len(stmts) || m["api"] != "ctx" {
+			return "bad-op cancel=" + c
+		}
+		cancelAt, kind = k, c[:1]
 	}
 	var endErr error
 	if strings.HasPrefix(m["end"], "err:") {
@@ -488,12 +731,33 @@ func RunOp(op []string, h Hooks) string {
 	body := func(s Sess) (err error) {
 		runs++
 		bodyOut = "panic" // stays if the body does not return
-		for i := 0; i < len(stmts); i++ {
+		for i := 0; i <= len(stmts); i++ {
+			if i == cancelAt {
+				if s.End == nil {
+					panic("c14 harness: no context to end")
+				}
+				s.End(kind == "d")
+			}
+			if i == len(stmts) {
+				break
+			}
 			var e error
 			prop := false
 			switch stmts[i] {
 			case 'x':
 				e = s.Exec(fmt.Sprintf("c14 %d ok", i))
+			case 'X':
+				e, prop = s.Exec(fmt.Sprintf("c14 %d ok", i)), true
+			case 'Y':
+				e, prop = s.Query(fmt.Sprintf("c14 %d ok", i)), true
+			case 'p':
+				e, prop = s.PExec(fmt.Sprintf("c14 %d ok", i)), true
+			case 'P':
+				e, prop = s.PExec(fmt.Sprintf("c14 %d fail", i)), true
+			case 'N':
+				e, prop = s.NestCtx(), true
+			case 'M':
+				e = s.NestCtx()
 			case 'f':
 				e, prop = s.Exec(fmt.Sprintf("c14 %d fail", i)), true
 			case 'i':
@@ -510,6 +774,9 @@ func RunOp(op []string, h Hooks) string {
 				e = s.Nest()
 			default:
 				panic("c14 harness: bad statement letter")
+			}
+			if prop && e == nil && (stmts[i] == 'X' || stmts[i] == 'Y' || stmts[i] == 'p') {
+				continue // `if err != nil { return err }` on a statement that worked
 			}
 			if prop {
 				if e == nil {
@@ -543,8 +810,8 @@ func RunOp(op []string, h Hooks) string {
 		}
 	}
 	var ret error
-	var mark string
-	escaped := ""
+	mark := "-"
+	var escaped any
 	returned := false
 	if m["end"] == "panicnil1" {
 		old, had := os.LookupEnv("GODEBUG")
@@ -563,18 +830,25 @@ func RunOp(op []string, h Hooks) string {
 		defer close(done)
 		defer func() {
 			if p := recover(); p != nil {
-				escaped = strings.ReplaceAll(fmt.Sprint(p), " ", "_")
+				escaped = p
 			}
 		}()
-		ret, mark = h.Call(m["api"], m["brk"] != "reject", body)
+		ret = h.Call(m["api"], kind, m["brk"] != "reject", body, &mark)
 		returned = true
 	}()
 	<-done
-	if escaped == "" && !returned {
-		return fmt.Sprintf("log=%s runs=%d body=%s ret=noreturn mark=-", h.Plan.Log(), runs, bodyOut)
+	if escaped == nil && !returned {
+		return fmt.Sprintf("log=%s runs=%d body=%s ret=noreturn mark=- esc=0", h.Plan.Log(), runs, bodyOut)
 	}
-	if escaped != "" {
-		return fmt.Sprintf("log=%s runs=%d body=%s ret=PANICKED:%s", h.Plan.Log(), runs, bodyOut, escaped)
+	if escaped != nil {
+		// the call left by a panic: its value, classified like an error
+		pe, ok := escaped.(error)
+		if !ok {
+			pe = errors.New(strings.ReplaceAll(fmt.Sprint(escaped), " ", "_"))
+		}
+		return fmt.Sprintf("log=%s runs=%d body=%s ret=%s mark=%s esc=1", h.Plan.Log(), runs, bodyOut,
+			ClassifyT(pe, h.Extra, h.Texts), mark)
 	}
-	return fmt.Sprintf("log=%s runs=%d body=%s ret=%s mark=%s", h.Plan.Log(), runs, bodyOut, ClassifyT(ret, h.Extra, h.Texts), mark)
+	return fmt.Sprintf("log=%s runs=%d body=%s ret=%s mark=%s esc=0", h.Plan.Log(), runs, bodyOut,
+		ClassifyT(ret, h.Extra, h.Texts), mark)
 }
